@@ -1,7 +1,7 @@
 (** Model of lib/src/refs.rs:108-200: [merge_ref_targets], [merge_ref_targets_non_trivial],
     [find_pair_to_remove], on top of Model/Merge.v ([trivial_merge], [flatten], [simplify]).
     A ref target ([RefTarget] = [Merge<Option<CommitId>>]) is the alternating term vector
-    [list (option A)] ([None] = absent). Ancestry is a parameter [ancb] (the index's
+    [list (option A)] ([None] = absent). Ancestry is an argument [ancb] (the index's
     [is_ancestor], reflexive): a Section variable for the proofs, and computed from explicit
     parent lists ([dag_ancb]) for running. Index errors ([IndexResult::Err]) are outside the
     model. Definitions only. *)
